@@ -44,10 +44,7 @@ QueryClauses(ln, psi, gates) ==
   ELSE LET name == CASE ln.kind = "amp" -> "AmplitudeAgrees" [] ln.kind = "dense" -> "DenseAgrees"
                      [] ln.kind = "uni" -> "UniAgrees" [] ln.kind = "ptr" -> "PartialTraceAgrees"
                      [] ln.kind = "expec" -> "LocalExpectationAgrees" [] ln.kind = "marg" -> "MarginalAgrees"
-           want == Expected(ln, psi, gates)
-       IN  \* conditioning on an outcome of probability zero: the joint tensor is 0, an exception is accepted too
-           IF ln.kind = "marg" /\ ln.exc # "" /\ \A k \in DOMAIN want : IsZero(want[k]) THEN << <<name, TRUE>> >>
-           ELSE << <<name, ln.exc = "" /\ ln.vok /\ ln.val = want>> >>
+       IN  << <<name, ln.exc = "" /\ ln.vok /\ ln.val = Expected(ln, psi, gates)>> >>
 
 \* relational records: the driver measured (plain numpy) the distance to the statevector simulation / to a fresh
 \* circuit built from the same gate list, quantised in units of the tolerance
@@ -71,13 +68,12 @@ Clauses(ln) ==
                                <<"GateUnitary", ln.vok /\ IsUnitary(ln.mat)>> >>
     \* relational
     [] ln.ev = "unitary" -> << <<"GateUnitary", ln.exc = "" /\ ln.dq = 0>> >>
-    [] ln.ev = "rel"     -> << <<RelName(ln.kind), (ln.exc = "" /\ ln.dq = 0) \/ (ln.exc # "" /\ Has(ln, "zerocond") /\ ln.zerocond)>> >>
+    [] ln.ev = "rel"     -> << <<RelName(ln.kind), ln.exc = "" /\ ln.dq = 0>> >>
     [] ln.ev = "relrej"  -> << <<"RejectClean", ln.dq = 0>> >>
     \* end of a history: the long-lived object against the numpy simulation (dqref) and against a fresh object
     \* that was given the same gate list and asked nothing before (dq)
-    [] ln.ev = "stale"   -> LET zc == ln.exc # "" /\ Has(ln, "zerocond") /\ ln.zerocond IN
-                            << <<RelName(ln.kind), (ln.exc = "" /\ ln.dqref = 0) \/ zc>>,
-                               <<"NoStaleCache", (ln.exc = "" /\ ln.dq = 0) \/ zc>> >>
+    [] ln.ev = "stale"   -> << <<RelName(ln.kind), ln.exc = "" /\ ln.dqref = 0>>,
+                               <<"NoStaleCache", ln.exc = "" /\ ln.dq = 0>> >>
     [] ln.ev = "agree"   -> << <<"AllClassesAgree", ln.dq = 0>> >>
     [] OTHER -> << <<"UnknownEvent", FALSE>> >>
 
